@@ -987,8 +987,10 @@ orc_compiler_get_temp_reg (OrcCompiler *compiler)
     }
   }
 
+  /* also called after the last instruction (accumulator reduction) */
   ORC_DEBUG("at insn %d %s", compiler->insn_index,
-      compiler->insns[compiler->insn_index].opcode->name);
+      compiler->insn_index < compiler->n_insns ?
+      compiler->insns[compiler->insn_index].opcode->name : "(end)");
 
   // Use ORC_N_REGS to ensure forward proofed iteration
   for (j = compiler->min_temp_reg; j < ORC_N_REGS; j++) {
